@@ -140,15 +140,22 @@ class StatusAd(Adapter):
         shutil.rmtree(d, ignore_errors=True)
         os.makedirs(d)
         self.path = {"status.txt": os.path.join(d, "status.txt")}
-        self.st = D.Status(self.path["status.txt"], {}, ["stage0", "stage1"])
+        self.reset_possible = True
+        self.reinit()
+
+    def reinit(self):
+        """a new Status object on an empty directory"""
+        self.reset()
+        self.n = 0
+        self.st = self.D.Status(self.path["status.txt"], {}, ["stage0", "stage1"])
         self.st.setCreated("2026-01-01T00:00:00.000000+0000")
         self.desc = None
-        self.reset_possible = True
         self.set_value(None)
 
     def reset(self):
-        if os.path.exists(self.path["status.txt"]):
-            os.remove(self.path["status.txt"])
+        d = os.path.dirname(self.path["status.txt"])
+        for n in os.listdir(d):            # status.txt and the temp files failed updates leave behind
+            os.remove(os.path.join(d, n))
 
     def set_value(self, v):
         """v: text of the error description; None: there is none"""
@@ -443,7 +450,7 @@ def design_runs(chk, gen, thorough):
 
 def emit_histories(chk, gen, thorough):
     """finished update histories of the specified updater, with the value a reader must get"""
-    runs = [(3, '{"write"}')] if not thorough else [(3, '{"open", "write", "close", "rename"}'), (5, "{}")]
+    runs = [(3, '{"write"}')] if not thorough else [(3, '{"write", "rename"}'), (2, '{"open", "write", "close", "rename"}'), (4, "{}")]
     hists = {}
     for maxupd, faults in runs:
         cls = ", ".join('"%s"' % c for c in CLASSES)
@@ -746,10 +753,12 @@ def fidelity(chk, ad_cls, hists, scratch, maxlen, faults, only=None):
     fresh_bad = set()           # (file, class) that is already read back wrongly after being persisted once
     for k, case in enumerate(todo):
         hist = case["hist"]
-        if ad is None or ad_cls is StatusAd or k % 8 == 0:
+        if ad is None or k % (200 if ad_cls is StatusAd else 8) == 0:
             if ad is not None:
                 ad.cleanup()
             ad = ad_cls(scratch, tag="fid")
+        elif ad_cls is StatusAd:
+            ad.reinit()
         elif ad.reset_possible:
             ad.reset()
         r = run_history(ad, hist)
@@ -838,7 +847,7 @@ def _run(chk, thorough, gen, only_adapter, only_key):
         if only_adapter and cls.name != only_adapter:
             continue
         if cls is StatusAd:
-            nh += fidelity(chk, cls, hists, chk.scratch, 5, True, only=only_key)
+            nh += fidelity(chk, cls, hists, chk.scratch, 4, True, only=only_key)
         else:
             nh += fidelity(chk, cls, hists, chk.scratch, 3 if thorough else 2, False, only=only_key)
     chk.cov["fault_points_realised"] = nfault
